@@ -563,7 +563,7 @@ func parseRateLimit(rateLimit string) (rateCount int, rateWindow time.Duration, 
 		return
 	}
 	win := parts[1]
-	if len(win) > 0 && (win[0] < '0' || win[0] > '9') {
+	if len(win) > 0 && (win[0] < '0' || win[0] > '9') && win[0] != '.' {
 		win = "1" + win
 	}
 	if rateWindow, err = time.ParseDuration(win); err != nil || rateWindow < 0 {
